@@ -129,6 +129,11 @@ func genConfig(r *rng, allowNot bool) []*namespace.Namespace {
 				if len(types) == 0 {
 					types = append(types, ast.RelationType{Namespace: r.pick(names)})
 				}
+				if r.chance(1, 3) { // traversal through SubjectSet<T, R> types: the stored subject sets carry a relation
+					for i := range types {
+						types[i].Relation = r.pick(related)
+					}
+				}
 				travOver = append(travOver, rel)
 			} else {
 				types = append(types, ast.RelationType{Namespace: "U"})
@@ -297,12 +302,17 @@ func isTraversed(rel ast.Relation) bool {
 	if rel.SubjectSetRewrite != nil || len(rel.Types) == 0 {
 		return false
 	}
+	// a hierarchy relation: every type is an object of a namespace (plain, or all SubjectSet<T,R>), never a user
+	withRel := 0
 	for _, t := range rel.Types {
-		if t.Relation != "" || t.Namespace == "U" {
+		if t.Namespace == "U" {
 			return false
 		}
+		if t.Relation != "" {
+			withRel++
+		}
 	}
-	return true
+	return withRel == 0 || withRel == len(rel.Types)
 }
 
 func egTuples(r *rng, nss []*namespace.Namespace, n int, conform bool) []*ketoapi.RelationTuple {
@@ -327,7 +337,7 @@ func egTuples(r *rng, nss []*namespace.Namespace, n int, conform bool) []*ketoap
 			oi := r.intn(len(egObjects) - 1)
 			obj = egObjects[oi]
 			t := rel.Types[r.intn(len(rel.Types))]
-			sid, sset = nil, &ketoapi.SubjectSet{Namespace: t.Namespace, Object: egObjects[oi+1+r.intn(len(egObjects)-oi-1)], Relation: ""}
+			sid, sset = nil, &ketoapi.SubjectSet{Namespace: t.Namespace, Object: egObjects[oi+1+r.intn(len(egObjects)-oi-1)], Relation: t.Relation}
 		}
 		ts = append(ts, &ketoapi.RelationTuple{Namespace: ns.Name, Object: obj, Relation: rel.Name, SubjectID: sid, SubjectSet: sset})
 	}
@@ -653,6 +663,9 @@ func suiteEngine(t *testing.T, cfg cfgT) {
 			out.stat("envs.binding_limits")
 		}
 		nq := 25
+		var stressQs []*ketoapi.RelationTuple
+		var stressRd []int
+		var stressObs []string
 		for i := 0; i < nq; i++ {
 			q := egQuery(hr, nss)
 			rd := 0
@@ -663,10 +676,30 @@ func suiteEngine(t *testing.T, cfg cfgT) {
 				q, rd = motifQs[i], 0
 			}
 			obs := ee.check(q, rd)
+			stressQs, stressRd, stressObs = append(stressQs, q), append(stressRd, rd), append(stressObs, obs)
 			// effective-depth pair: the same request against limit eff(r,g) with request depth 0 is compared by the oracle via 'eff'
 			out.emit(fmt.Sprintf("echeck %s %d", fmtTuple(q), rd), obs)
 			out.stat("result." + strings.Fields(obs)[0])
 			cases++
+		}
+		if envNo < 2 && cfg.suite == "ENGINE" && cfg.extra["stress"] == "1" { // schedule stress: the answer of a check must not depend on goroutine scheduling
+			picked := 0
+			for _, want := range []string{"is 0", "not 0"} {
+				for i := 0; i < len(stressQs) && picked < 4; i++ {
+					if stressObs[i] != want {
+						continue
+					}
+					dev := stressCheck(ee.e, stressQs[i], stressRd[i], want, 2400, 16)
+					v := "same"
+					if dev > 0 {
+						v = fmt.Sprintf("diff %d-of-2400", dev)
+					}
+					out.emit(fmt.Sprintf("estress %s %d", fmtTuple(stressQs[i]), stressRd[i]), v)
+					out.stat("stress")
+					picked++
+					cases++
+				}
+			}
 		}
 		if cfg.extra["probe_env"] == fmt.Sprint(envNo) { // debugging aid: every goal of this environment at small depths
 			for _, ns := range nss[1:] {
@@ -700,6 +733,7 @@ func engineCorpus(t *testing.T, out *sink) int {
 		checks []string
 		depth  int
 		gdepth int
+		width  int // 0 = 100
 	}
 	doc := func(rels ...ast.Relation) []*namespace.Namespace {
 		return []*namespace.Namespace{{Name: "U"}, {Name: "Doc", Relations: rels}, {Name: "G", Relations: []ast.Relation{{Name: "m"}}}, {Name: "H", Relations: []ast.Relation{{Name: "m"}}}}
@@ -742,6 +776,21 @@ func engineCorpus(t *testing.T, out *sink) int {
 			depth: depth, gdepth: 100,
 		})
 	}
+	// width ladders: a node with five subject sets, each leading to its own user, under max-width 3 (and 2): which of
+	// them survive the truncation, at the root and one level down, with and without a request depth
+	for _, w := range []int{2, 3} {
+		for _, depth := range []int{0, 2, 3, 4, 9} {
+			scs = append(scs, sc{
+				nss: doc(ast.Relation{Name: "v"}, ast.Relation{Name: "top"}),
+				tuples: []string{"Doc:x#v@G:g1#m", "Doc:x#v@G:g2#m", "Doc:x#v@G:g3#m", "Doc:x#v@G:g4#m", "Doc:x#v@G:g5#m",
+					"G:g1#m@H:g1#m", "G:g2#m@H:g2#m", "G:g3#m@H:g3#m", "G:g4#m@H:g4#m", "G:g5#m@H:g5#m",
+					"H:g1#m@alice", "H:g2#m@bob", "H:g3#m@carol", "H:g4#m@dave", "H:g5#m@erin", "Doc:y#top@Doc:x#v"},
+				checks: []string{"Doc:x#v@alice", "Doc:x#v@bob", "Doc:x#v@carol", "Doc:x#v@dave", "Doc:x#v@erin",
+					"Doc:y#top@alice", "Doc:y#top@carol", "Doc:y#top@erin"},
+				depth: depth, gdepth: 5, width: w,
+			})
+		}
+	}
 	// a wide traversal: 150 parents (two storage pages of the tuple-to-subject-set listing), grants behind parents of
 	// the first and of the second page
 	{
@@ -765,8 +814,11 @@ func engineCorpus(t *testing.T, out *sink) int {
 		})
 	}
 	for _, s := range scs {
-		ee := newEngineEnv(t, s.nss, false, false, s.gdepth, 100)
-		for _, o := range []string{"x", "y", "z", "g", "h", "o", "w", "deep", "grp", "alice", "bob", "carol"} {
+		if s.width == 0 {
+			s.width = 100
+		}
+		ee := newEngineEnv(t, s.nss, false, false, s.gdepth, s.width)
+		for _, o := range []string{"x", "y", "z", "g", "h", "o", "w", "deep", "grp", "g1", "g2", "g3", "g4", "g5", "alice", "bob", "carol", "dave", "erin"} {
 			ee.pool.add(o)
 		}
 		for i := 0; i < 150; i++ {
@@ -787,6 +839,20 @@ func engineCorpus(t *testing.T, out *sink) int {
 			q, _ := (&ketoapi.RelationTuple{}).FromString(c)
 			out.emit(fmt.Sprintf("echeck %s %d", fmtTuple(q), s.depth), ee.check(q, s.depth))
 			n++
+		}
+		// C02, second half, on the SAME stored state: a request depth r under global g answers what a server with global
+		// eff(r,g) answers to a request without depth
+		if s.depth > 0 && s.depth < s.gdepth {
+			cfgc := ee.e.reg.Config(context.Background())
+			for _, c := range s.checks {
+				q, _ := (&ketoapi.RelationTuple{}).FromString(c)
+				a := ee.check(q, s.depth)
+				_ = cfgc.Set(config.KeyLimitMaxReadDepth, s.depth)
+				b := ee.check(q, 0)
+				_ = cfgc.Set(config.KeyLimitMaxReadDepth, s.gdepth)
+				out.emit(fmt.Sprintf("eeff %s %d %d", fmtTuple(q), s.depth, s.gdepth), strings.ReplaceAll(a, " ", "/")+" "+strings.ReplaceAll(b, " ", "/"))
+				n++
+			}
 		}
 		ee.e.close()
 	}
